@@ -102,6 +102,27 @@ func TestOperatorTable(t *testing.T) {
 					judge(t, "table", c, key+"/var", "delivery/variable")
 					n++
 				}
+				// delivery 2b: the variables got their values (of these types) in a nested block, after holding values of another type
+				if idx%3 == 0 {
+					other := func(v any) *gen.Node {
+						switch v.(type) {
+						case string:
+							return gen.NInt(1)
+						case int64:
+							return gen.NFloat(2.5)
+						}
+						return gen.NStr("before")
+					}
+					e := gen.NBin(op, id("x"), id("y"))
+					c := sem.NewCase(gen.FixAll([]*gen.Node{
+						gen.NSet("x", other(l)), gen.NSet("y", other(r)),
+						gen.NIf([]*gen.Node{gen.NBool(true)}, [][]*gen.Node{{gen.NSet("x", sgen.Lit(l)), gen.NForIn("e", gen.NList(gen.NInt(1)), []*gen.Node{gen.NSet("y", sgen.Lit(r))})}}, nil, false),
+						gen.NCall("probe", gen.NStr("r"), e.Clone()),
+						gen.NCall("add_key", id("r"), e.Clone()),
+					}))
+					judge(t, "table", c, key+"/retyped-in-block", "delivery/variable-retyped-in-nested-block")
+					n++
+				}
 				// delivery 3: point keys (scalars only)
 				if sgen.IsScalar(l) && sgen.IsScalar(r) {
 					e := gen.NBin(op, id("p1"), id("p2"))
